@@ -323,6 +323,11 @@ def _pattern_text(node):
     raise TableError("unrecognised pattern expression")
 
 
+def _guards():
+    from . import guards
+    return guards.guard_table(core.REPO)
+
+
 def _twins():
     from . import twins
     return twins.twin_table(core.REPO)
@@ -393,7 +398,7 @@ def cli_tables():
 
 def extract_all():
     return {"parser": parser_tables(), "filter": filter_tables(), "env": env_tables(), "pointer": pointer_tables(),
-            "exceptions": exception_tables(), "lexer": lexer_tables(), "cli": cli_tables(), "twins": _twins()}
+            "exceptions": exception_tables(), "lexer": lexer_tables(), "cli": cli_tables(), "twins": _twins(), "guards": _guards()}
 
 
 def render_lean(t) -> str:
@@ -451,6 +456,8 @@ def render_lean(t) -> str:
     a("def lexerPatterns : List (String × String) := " + llist(f"({lstr(k)}, {lstr(v)})" for k, v in sorted(lx["patterns"].items())))
     a("/-- sync/async twins of the evaluation modules: (file:Class.method, equal modulo the async machinery, digest of the normalised difference) -/")
     a("def asyncTwins : List (String × Bool × String) := " + llist(f"({lstr(k)}, {'true' if eq else 'false'}, {lstr(d)})" for k, eq, d in t["twins"]))
+    a("/-- conversions that can raise a built-in exception and the exception classes of their enclosing `try` blocks -/")
+    a("def conversionGuards : List (String × String × List String) := " + llist(f"({lstr(site)}, {lstr(callee)}, {llist(lstr(x) for x in g.split('|') if x)})" for site, callee, g in t["guards"]))
     a("def lexerInitPatterns : List (String × String) := " + llist(f"({lstr(k)}, {lstr(v)})" for k, v in lx["init"]))
     c = t["cli"]
     a("\n/-- cli.py: per handler, its `try` blocks: (functions called in the body, handlers: (classes, --debug re-raises, writes stderr, exit code)) -/")
